@@ -50,6 +50,17 @@ def gen(rng, tier):
             lines.append("%s;%s %d %d" % (nm, ";".join(tg), 8000000 + k * 100000 + i, ts[key]))
         cases.append({"concurrency": rng.choice([3, 5, 7]), "bufsize": 1000, "flushmaxnum": rng.choice([3, 5]), "flushmaxwait_ms": 20, "blocking": True,
                       "faults": [rng.choice(["hang", "500", "ok"]) for _ in range(4)], "lines": lines, "pause_every": 1, "shutdown": True})
+    # Shutdown while hand-overs are still waiting on the full buffer of a stalled worker (blocking mode): every call that returns
+    # was accepted, so its point must be acknowledged before Shutdown returns.  One series per line: the hand-overs are concurrent.
+    for k in range(3 if tier == "quick" else 20):
+        conc = rng.choice([1, 1, 2])
+        buf = rng.choice([2, 4, 8]) * conc
+        fmn = rng.choice([1, 2, 3])
+        nl = conc * fmn + buf + rng.choice([3, 6, 12])
+        lines = ["blk%d.s%d %d %d" % (k, i, 9000000 + k * 1000 + i, 2000 + i) for i in range(nl)]
+        cases.append({"concurrency": conc, "bufsize": buf, "flushmaxnum": fmn, "flushmaxwait_ms": 50, "blocking": True,
+                      "faults": ["hang", "hang", rng.choice(["hang", "500", "ok"])], "lines": lines, "pause_every": 0, "shutdown": True,
+                      "shutdown_while_blocked": True})
     for k in range(n):
         conc = rng.choice([1, 1, 2, 3, 4])
         blocking = rng.random() < .3
